@@ -10,10 +10,14 @@ status 1 and writes nothing):
   string.digits and string literals), the maximal label length tested by _validate_label, and of
   _WidthLimitedFile: TARGET_LINE_LEN, the break condition `self._line_len + pos > self.TARGET_LINE_LEN - 1`,
   the break string written and the line length it leaves.
+* dimod/lp.py dump (+ _sign, _sense, _abs) and dimod/sym.py Sense: the FIXED WORDS the writer emits - every literal
+  piece of every `f.write(...)` of dump, split at blanks, plus the values of _sign, _sense and the section names
+  of the Binary/General loop; a literal glued to a formatted value may only be the colon behind a label
+  (`{label}:`), and the formatted values may only be the known ones (labels, _sign/_abs/_sense calls, rhs, bounds).
 * extern/filereaderlp/reader.cpp: the section keyword table `sectionkeywordmap`, and of
   Reader::readnexttoken the single-character tokens, the characters that discard the rest of the
   line (comment / line end), the blanks, the use of strtod for numbers and the delimiter set that
-  ends an identifier.
+  ends an identifier; for every single-character token also the RawTokenType it is given (SINGLE_CHAR_KINDS).
 * extern/filereaderlp/def.hpp: LP_KEYWORD_INF, LP_KEYWORD_FREE.
 """
 import ast
@@ -132,6 +136,74 @@ def lp_py(src):
 
 
 # ----------------------------------------------------------------------------
+# lp.py dump: the words of the output language
+
+PLACEHOLDERS = {"_sign(bias)", "_abs(bias)", "var", "_abs(2 * bias)", "u", "v", "_sign(offset)", "_abs(offset)", "label",
+                "_sense(constraint.sense)", "rhs", "cqm.lower_bound(v)", "cqm.upper_bound(v)", "section"}
+HOLE = "\x00"
+
+
+def writer_words(src, sym_src):
+    tree = ast.parse(src)
+    dump = func(tree, "dump")
+    fixed, templates, holes = set(), set(), set()
+    calls = [n for n in ast.walk(dump) if isinstance(n, ast.Call) and isinstance(n.func, ast.Attribute)
+             and n.func.attr == "write" and isinstance(n.func.value, ast.Name) and n.func.value.id == "f"]
+    need(len(calls) >= 20, "dump: fewer f.write calls than expected")
+    for c in calls:
+        need(len(c.args) == 1 and not c.keywords, "dump: f.write with other than one argument at line %d" % c.lineno)
+        a = c.args[0]
+        if isinstance(a, ast.Constant) and isinstance(a.value, str):
+            pattern = a.value
+        elif isinstance(a, ast.JoinedStr):
+            pattern = ""
+            for part in a.values:
+                if isinstance(part, ast.Constant) and isinstance(part.value, str):
+                    pattern += part.value
+                elif isinstance(part, ast.FormattedValue):
+                    need(part.conversion == -1 and part.format_spec is None,
+                         "dump: formatted value with conversion/format at line %d" % c.lineno)
+                    e = ast.unparse(part.value)
+                    need(e in PLACEHOLDERS, f"dump: unexpected formatted value {{{e}}} at line {c.lineno}")
+                    holes.add(e)
+                    pattern += HOLE
+                else:
+                    raise Fail("dump: unexpected f-string part at line %d" % c.lineno)
+        else:
+            raise Fail("dump: f.write argument is neither a literal nor an f-string at line %d" % c.lineno)
+        need(HOLE + HOLE not in pattern, "dump: two formatted values without a blank between them at line %d" % c.lineno)
+        for w in pattern.split():
+            if HOLE in w:
+                need(w in (HOLE, HOLE + ":"), f"dump: literal glued to a formatted value: {w!r} at line {c.lineno}")
+                templates.add(w)
+            else:
+                fixed.add(w)
+    # the section names of the loop that writes the Binary / General lists
+    loops = [n for n in ast.walk(dump) if isinstance(n, ast.For) and ast.unparse(n.target) == "(section, vartype_)"]
+    need(len(loops) == 1 and isinstance(loops[0].iter, ast.Tuple), "dump: the section loop is not over a literal tuple")
+    for el in loops[0].iter.elts:
+        need(isinstance(el, ast.Tuple) and len(el.elts) == 2 and isinstance(el.elts[0], ast.Constant)
+             and isinstance(el.elts[0].value, str) and len(el.elts[0].value.split()) == 1,
+             "dump: unexpected element in the section loop")
+        fixed.add(el.elts[0].value)
+    # _sign, _sense, _abs
+    need(ast.unparse(func(tree, "_sign").body[-1]) == "return '-' if bias < 0 else '+'", "_sign: unexpected body")
+    fixed.update(["-", "+"])
+    need(ast.unparse(func(tree, "_sense").body[-1]) == "return '=' if s.value == '==' else s.value", "_sense: unexpected body")
+    sym = ast.parse(sym_src)
+    sense = [n for n in sym.body if isinstance(n, ast.ClassDef) and n.name == "Sense"]
+    need(len(sense) == 1, "sym.py: class Sense not found")
+    vals = [n.value.value for n in sense[0].body if isinstance(n, ast.Assign) and isinstance(n.value, ast.Constant)
+            and isinstance(n.value.value, str)]
+    need(sorted(vals) == ["<=", "==", ">="], f"sym.py: unexpected Sense values {vals}")
+    fixed.update(["=" if v == "==" else v for v in vals])
+    need(ast.unparse(func(tree, "_abs").body[-1]) ==
+         "return repr(abs(int(bias))) if int(bias) == bias else repr(abs(float(bias)))", "_abs: unexpected body")
+    need(templates == {HOLE, HOLE + ":"}, "dump: unexpected set of word templates")
+    return sorted(fixed), sorted(holes)
+
+
+# ----------------------------------------------------------------------------
 # reader.cpp / def.hpp
 
 C_ESC = {"t": "\t", "n": "\n", "\\": "\\", "0": "\0", "'": "'", '"': '"', "r": "\r"}
@@ -173,15 +245,17 @@ def reader_cpp(src, defs):
     sw = re.search(r"switch \(nextchar\) \{(.*?)\n  \}\n", fn, re.S)
     need(sw is not None, "switch (nextchar) not found")
     groups = re.findall(r"((?:\s*(?://[^\n]*\n\s*)*case '(?:\\.|[^'])':(?:\s*//[^\n]*)?\n)+)(.*?)(?=\n\s*(?://[^\n]*\n\s*)*case '|\Z)", sw.group(1), re.S)
-    single, skip, blank, empty = [], [], [], []
+    single, skip, blank, empty, single_kinds = [], [], [], [], []
     seen = 0
     for labels, stmts in groups:
         chars = [c_unescape(c) for c in re.findall(r"case '((?:\\.|[^'])+)':", labels)]
         seen += len(chars)
         code = re.sub(r"//[^\n]*", "", stmts)
         code = " ".join(code.split())
-        if re.fullmatch(r"t = RawTokenType::\w+; this->linebufferpos\+\+; return true;", code):
+        mk = re.fullmatch(r"t = RawTokenType::(\w+); this->linebufferpos\+\+; return true;", code)
+        if mk:
             single += chars
+            single_kinds += [(c, mk.group(1)) for c in chars]
         elif code == "this->linebufferpos = this->linebuffer.size(); return false;":
             skip += chars
         elif code == "this->linebufferpos++; return false;":
@@ -193,6 +267,8 @@ def reader_cpp(src, defs):
     need(seen == len(re.findall(r"case '", sw.group(1))), "readnexttoken: a case label was not parsed")
     need(empty == ["\0"], "readnexttoken: unexpected empty-line case")
     out["single"], out["skip"], out["blank"] = single, skip, blank
+    need(all(len(c) == 1 for c, _ in single_kinds), "readnexttoken: a single-character token is not one character")
+    out["single_kinds"] = single_kinds
     after = fn[sw.end():]
     need(len(re.findall(r"strtod\(startptr, &endptr\)", after)) == 1 and "if (endptr != startptr)" in after,
          "readnexttoken: numbers are no longer recognised by strtod")
@@ -215,7 +291,9 @@ def main():
     build, outdir = sys.argv[1], sys.argv[2]
     inputs = []
     try:
-        py = lp_py(read(build, "dimod/lp.py", inputs))
+        lp_src = read(build, "dimod/lp.py", inputs)
+        py = lp_py(lp_src)
+        words, holes = writer_words(lp_src, read(build, "dimod/sym.py", inputs))
         cpp = reader_cpp(read(build, "extern/filereaderlp/reader.cpp", inputs).replace("\r\n", "\n"),
                          read(build, "extern/filereaderlp/def.hpp", inputs).replace("\r\n", "\n"))
     except Fail as e:
@@ -229,7 +307,10 @@ def main():
          f"Definition LABEL_MAX_LEN : nat := {py['max_len']}.",
          f"Definition TARGET_LINE_LEN : nat := {py['target']}.",
          f"Definition WRAP_BREAK : list N := {coq_text(py['break'])}.",
-         f"Definition WRAP_BREAK_LINE_LEN : nat := {py['break_len']}.", "",
+         f"Definition WRAP_BREAK_LINE_LEN : nat := {py['break_len']}.",
+         "(* the fixed words of dump's output: literal pieces of its f.write calls, _sign, _sense, section names;",
+         "   every other word is a formatted value (" + ", ".join(holes) + "), a label possibly followed by ':' *)",
+         "Definition WRITER_FIXED_WORDS : list (list N) := [" + "; ".join(coq_text(w) for w in words) + "].", "",
          "(* extern/filereaderlp/reader.cpp, def.hpp *)",
          "Inductive lpsection := " + " | ".join("SEC_" + k for k in cpp["kinds"]) + ".",
          "Definition SECTION_KEYWORDS : list (list N * lpsection) := [",
@@ -239,6 +320,10 @@ def main():
          f"Definition KEYWORD_INF : list (list N) := [{'; '.join(coq_text(w) for w in cpp['inf'])}].",
          f"Definition KEYWORD_FREE : list (list N) := [{'; '.join(coq_text(w) for w in cpp['free'])}].",
          f"Definition SINGLE_CHAR_TOKENS : list N := {coq_text(cpp['single'])}.",
+         "(* the raw token each single character stands for (the switch of readnexttoken) *)",
+         "Inductive rawkind := " + " | ".join("RK_" + k for k in dict.fromkeys(k for _, k in cpp["single_kinds"])) + ".",
+         "Definition SINGLE_CHAR_KINDS : list (N * rawkind) := ["
+         + "; ".join(f"({ord(c)}, RK_{k})" for c, k in cpp["single_kinds"]) + "]%N.",
          f"Definition SKIP_LINE_CHARS : list N := {coq_text(cpp['skip'])}.",
          f"Definition BLANK_CHARS : list N := {coq_text(cpp['blank'])}.",
          f"Definition IDENT_DELIMS : list N := {coq_text(cpp['delims'])}.",
